@@ -6,35 +6,45 @@ import random
 from fractions import Fraction as F
 
 from ..core import Case, Prop
+import zlib
+
 from ..scautil import (LATTICE, approx_equal, arr, brackets_of, eps_eff, exact, fmt_scale, fmt_vals, fr,
                        half_even, is_tie, mk, parse_rd, parse_scale, parse_vals, show_brackets, snap,
-                       spec_build, spec_la, spec_ma, spec_mr, spec_mr_rounded, spec_sa)
+                       spec_build, spec_la, spec_ma, spec_mr, spec_mr_rounded, spec_sa, split_bases)
 
 Q = F(1, 4)
-APPROX_OPS = {"lacalc"}          # one true division: compared with tolerance 2^-20
+APPROX_OPS = {"lacalc", "lacalcR"}          # one true division: compared with tolerance 2^-20
 
 
 # ----------------------------------------------------------------------------------------
 # implementation adapter
 
 
-def _vec_and_single(fn, bases, canon):
-    """value on the whole vector, and flag when a base alone gives another (canonical) value"""
-    out = [canon(v) for v in fn(arr(bases))]
+def _vec_and_single(fn, n, canon):
+    """value on the whole vector (`fn(list of positions)`), and flag when a base alone gives
+    another (canonical) value"""
+    out = [canon(v) for v in fn(list(range(n)))]
     flags = ""
-    if len(out) != len(bases):
+    if len(out) != n:
         return out, " !LEN"
-    for j, b in enumerate(bases):
-        one = fn(arr([b]))
+    for j in range(n):
+        one = fn([j])
         if len(one) != 1 or canon(one[0]) != out[j]:
             flags = " !VEC"
             break
     return out, flags
 
 
+def _positional(line: str) -> bool:
+    """half of the lines spell the optional arguments positionally, the other half by keyword"""
+    return zlib.crc32(line.encode()) % 2 == 0
+
+
 def impl(case: Case) -> str:
+    import numpy
     f = case.line.split()
     op = f[1]
+    pos = _positional(case.line)
     if op == "build":
         ins = parse_scale(f[2])
         try:
@@ -43,22 +53,37 @@ def impl(case: Case) -> str:
         except Exception:
             return "ERR"
         return show_brackets(a) + ("" if a == b else " !KIND")
-    if op in ("mrcalc", "mridx", "mrrate"):
-        fac, rd, ins, bases = F(f[3]), parse_rd(f[4]), parse_scale(f[5]), parse_vals(f[6])
+    if op in ("mrcalc", "mridx", "mrrate", "mrcalcv", "mridxv", "mrratev"):
+        vec = op.endswith("v")
+        facs = [float(x) for x in parse_vals(f[3])]
+        rd, ins = parse_rd(f[4]), parse_scale(f[5])
+        ints, bases = split_bases(f[6])
+        n = len(bases)
+
+        def fa(ix):                    # the factor argument for the positions ix
+            return numpy.array([facs[k] for k in ix]) if vec else facs[0]
+
+        def ba(ix):
+            return arr([bases[k] for k in ix], ints)
+        allix = list(range(n))
         try:
             s = mk("mr", ins)
-            if op == "mrcalc":
+            if op.startswith("mrcalc"):
                 den = LATTICE if rd is None else 10 ** rd
-                vals, flags = _vec_and_single(
-                    lambda a: s.calc(a, factor=float(fac), round_base_decimals=rd), bases, lambda v: snap(v, den))
+                call = ((lambda ix: s.calc(ba(ix), fa(ix), rd)) if pos else
+                        (lambda ix: s.calc(ba(ix), factor=fa(ix), round_base_decimals=rd)))
+                if rd is None and not vec and facs[0] == 1.0 and pos:
+                    call = lambda ix: s.calc(ba(ix))                      # all defaults
+                vals, flags = _vec_and_single(call, n, lambda v: snap(v, den))
                 return fmt_vals(vals) + flags
-            if op == "mridx":
-                out = s.bracket_indices(arr(bases), factor=float(fac), round_decimals=rd)
-                return ",".join(str(int(k)) for k in out) if len(out) else "-"
-            out = s.marginal_rates(arr(bases), factor=float(fac), round_base_decimals=rd)
+            idx = (s.bracket_indices(ba(allix), fa(allix), rd) if pos else
+                   s.bracket_indices(ba(allix), factor=fa(allix), round_decimals=rd))
+            if op.startswith("mridx"):
+                return ",".join(str(int(k)) for k in idx) if len(idx) else "-"
+            out = (s.marginal_rates(ba(allix), fa(allix), rd) if pos else
+                   s.marginal_rates(ba(allix), factor=fa(allix), round_base_decimals=rd))
             # same arguments to bracket_indices: at or above the first threshold (index >= 0)
             # the reported rate must be the rate of the reported bracket
-            idx = s.bracket_indices(arr(bases), factor=float(fac), round_decimals=rd)
             flags = ""
             if len(idx) != len(out) or any(int(k) >= 0 and exact(s.rates[int(k)]) != exact(v) for k, v in zip(idx, out)):
                 flags = " !IDX"
@@ -66,26 +91,58 @@ def impl(case: Case) -> str:
         except Exception:
             return "ERR"
     if op in ("thr", "ratefb"):
-        ins, bases = parse_scale(f[3]), parse_vals(f[4])
+        ins = parse_scale(f[3])
+        ints, bases = split_bases(f[4])
         try:
-            s = mk("mr", ins)
-            out = s.threshold_from_tax_base(arr(bases)) if op == "thr" else s.rate_from_tax_base(arr(bases))
+            s = mk("mr" if pos or op == "ratefb" else "la", ins)       # threshold_from_tax_base is shared by both rate scales
+            out = s.threshold_from_tax_base(arr(bases, ints)) if op == "thr" else s.rate_from_tax_base(arr(bases, ints))
             return fmt_vals(exact(v) for v in out)
         except Exception:
             return "ERR"
-    if op in ("macalc", "lacalc"):
-        ins, bases = parse_scale(f[2]), parse_vals(f[3])
+    if op == "ratefi":
+        ins = parse_scale(f[2])
+        idx = [] if f[3] == "-" else [int(k) for k in f[3].split(",")]
         try:
-            s = mk("ma" if op == "macalc" else "la", ins)
-            vals, flags = _vec_and_single(lambda a: s.calc(a), bases, exact if op == "macalc" else snap_la)
+            s = mk("mr", ins)
+            out = s.rate_from_bracket_indice(numpy.array(idx, dtype=numpy.int16 if pos else numpy.int64))
+            return fmt_vals(exact(v) for v in out)
+        except Exception:
+            return "ERR"
+    if op in ("macalc", "lacalc", "macalcR", "lacalcR"):
+        ins = parse_scale(f[2])
+        ints, bases = split_bases(f[3])
+        try:
+            s = mk("ma" if op.startswith("ma") else "la", ins)
+            if op.endswith("R"):
+                call = (lambda ix: s.calc(arr([bases[k] for k in ix], ints), True)) if pos else \
+                       (lambda ix: s.calc(arr([bases[k] for k in ix], ints), right=True))
+            else:
+                call = lambda ix: s.calc(arr([bases[k] for k in ix], ints))
+            vals, flags = _vec_and_single(call, len(bases), exact if op.startswith("ma") else snap_la)
             return fmt_vals(vals) + flags
         except Exception:
             return "ERR"
     if op == "sacalc":
-        right, ins, bases = f[2] == "R", parse_scale(f[3]), parse_vals(f[4])
+        right, ins = f[2] == "R", parse_scale(f[3])
+        ints, bases = split_bases(f[4])
         try:
             s = mk("sa", ins)
-            vals, flags = _vec_and_single(lambda a: s.calc(a, right=right), bases, exact)
+            if pos:
+                call = lambda ix: s.calc(arr([bases[k] for k in ix], ints), right)
+            elif right:
+                call = lambda ix: s.calc(arr([bases[k] for k in ix], ints), right=True)
+            else:
+                call = lambda ix: s.calc(arr([bases[k] for k in ix], ints))        # default right=False
+            vals, flags = _vec_and_single(call, len(bases), exact)
+            # this scale also accepts a scalar, a 0-d array and a 2-d array: same values
+            if bases and not flags:
+                b0 = int(bases[0]) if ints else float(bases[0])
+                if exact(s.calc(b0, right=right)) != vals[0] or exact(s.calc(numpy.array(b0), right=right)) != vals[0]:
+                    flags = " !VEC"
+                if len(bases) % 2 == 0:
+                    two = s.calc(arr(bases, ints).reshape(2, -1), right=right)
+                    if two.shape != (2, len(bases) // 2) or [exact(v) for v in two.reshape(-1)] != vals:
+                        flags = " !VEC"
             return fmt_vals(vals) + flags
         except Exception:
             return "ERR"
@@ -138,6 +195,28 @@ def _containing(ths, b):
     return [k for k in range(len(ths)) if ths[k] <= b and (k + 1 == len(ths) or b <= ths[k + 1])]
 
 
+def _index_oracle(op, brs, fac, rd, bases, got):
+    """reported bracket / rate / threshold against the bracket containing the base"""
+    # rounded thresholds; on an exact rounding tie the eps perturbation decides, so both
+    # neighbours are admitted: `lo` rounds every tie down, `hi` up (count(hi) <= k + 1 <= count(lo))
+    lo, hi = _rounded([fac * t for t, _ in brs], rd)
+    for b, g in zip(bases, got):
+        if b < hi[0] or (b == hi[0] and hi[0] > 0) or lo[0] != hi[0] and b <= hi[0]:
+            continue                      # no bracket contains the base / convention (Appendix A)
+        cand = _containing(lo, b) + _containing(hi, b)
+        ks = list(range(min(cand), max(cand) + 1))
+        if op == "mridx":
+            if int(g) not in ks:
+                return ("mr-index", f"scale {fmt_scale(brs)} factor {fac} decimals {rd} base {b}: bracket {g} does not contain the base")
+        elif op in ("mrrate", "ratefb"):
+            if F(g) not in [brs[k][1] for k in ks]:
+                return ("mr-rate", f"scale {fmt_scale(brs)} factor {fac} decimals {rd} base {b}: rate {g} is not the rate of the bracket containing the base")
+        else:
+            if F(g) not in [brs[k][0] for k in ks]:
+                return ("mr-index", f"scale {fmt_scale(brs)} base {b}: threshold {g} is not the one of the bracket containing the base")
+    return None
+
+
 def oracle(case: Case, out: str):
     if not case.claimed:
         return None
@@ -156,52 +235,52 @@ def oracle(case: Case, out: str):
         if body != want:
             return ("insertion-order", f"brackets added as {f[2]} give {body}, the bracket set is {want}")
         return None
-    if op == "mrcalc":
-        fac, rd, ins, bases = F(f[3]), parse_rd(f[4]), parse_scale(f[5]), parse_vals(f[6])
+    if op in ("mrcalc", "mrcalcv"):
+        facs, rd, ins, bases = parse_vals(f[3]), parse_rd(f[4]), parse_scale(f[5]), split_bases(f[6])[1]
+        if len(facs) == 1:
+            facs = facs * len(bases)
         brs = spec_build(ins)
         if body == "ERR":
             return ("raises", "calc raised on " + case.line[:200])
         vals = parse_vals(body)
-        for b, v in zip(bases, vals):
+        for b, v, fac in zip(bases, vals, facs):
             want = spec_mr(brs, b, fac) if rd is None else spec_mr_rounded(brs, b, fac, rd)
             if want is not None and v != want:
                 return ("mr-calc", f"scale {fmt_scale(brs)} factor {fac} decimals {rd} base {b}: calc={v}, definition={want}")
         return None
-    if op in ("mridx", "mrrate", "thr", "ratefb"):
-        if op in ("mridx", "mrrate"):
-            fac, rd, ins, bases = F(f[3]), parse_rd(f[4]), parse_scale(f[5]), parse_vals(f[6])
-        else:
-            fac, rd, ins, bases = F(1), None, parse_scale(f[3]), parse_vals(f[4])
-        brs = spec_build(ins)
-        if not brs or not bases or fac <= 0:
+    if op == "ratefi":
+        brs = spec_build(parse_scale(f[2]))
+        idx = [] if f[3] == "-" else [int(k) for k in f[3].split(",")]
+        if not idx or not all(0 <= k < len(brs) for k in idx):
             return None
-        ths = [fac * t for t, _ in brs]
-        # rounded thresholds; on an exact rounding tie the eps perturbation decides, so both
-        # neighbours are admitted: `lo` rounds every tie down, `hi` up (count(hi) <= k + 1 <= count(lo))
-        lo, hi = _rounded(ths, rd)
+        if body == "ERR":
+            return ("raises", "rate_from_bracket_indice raised on valid indices: " + case.line[:200])
+        if parse_vals(body) != [brs[k][1] for k in idx]:
+            return ("mr-rate", f"scale {fmt_scale(brs)}: rate_from_bracket_indice({idx}) = {body}")
+        return None
+    if op in ("mridx", "mrrate", "mridxv", "mrratev", "thr", "ratefb"):
+        if op.startswith("mr"):
+            facs, rd, ins, bases = parse_vals(f[3]), parse_rd(f[4]), parse_scale(f[5]), split_bases(f[6])[1]
+        else:
+            facs, rd, ins, bases = [F(1)], None, parse_scale(f[3]), split_bases(f[4])[1]
+        brs = spec_build(ins)
+        if not brs or not bases or any(x <= 0 for x in facs):
+            return None
         if body == "ERR":
             return ("raises", f"{op} raised on " + case.line[:200])
-        got = body.split(",")
-        for b, g in zip(bases, got):
-            if b < hi[0] or (b == hi[0] and hi[0] > 0) or lo[0] != hi[0] and b <= hi[0]:
-                continue                      # no bracket contains the base / convention (Appendix A)
-            cand = _containing(lo, b) + _containing(hi, b)
-            ks = list(range(min(cand), max(cand) + 1))
-            if op == "mridx":
-                if int(g) not in ks:
-                    return ("mr-index", f"scale {fmt_scale(brs)} factor {fac} decimals {rd} base {b}: bracket {g} does not contain the base")
-            elif op in ("mrrate", "ratefb"):
-                if F(g) not in [brs[k][1] for k in ks]:
-                    return ("mr-rate", f"scale {fmt_scale(brs)} factor {fac} decimals {rd} base {b}: rate {g} is not the rate of the bracket containing the base")
-            else:
-                if F(g) not in [brs[k][0] for k in ks]:
-                    return ("mr-index", f"scale {fmt_scale(brs)} base {b}: threshold {g} is not the one of the bracket containing the base")
-        return None
+        if len(facs) > 1:                         # an array of factors: element by element
+            got = body.split(",")
+            for b, g, fac in zip(bases, got, facs):
+                r = _index_oracle(op[:-1], brs, fac, rd, [b], [g])
+                if r:
+                    return r
+            return None
+        return _index_oracle(op[:-1] if op.endswith("v") else op, brs, facs[0], rd, bases, body.split(","))
     if op in ("macalc", "lacalc", "sacalc"):
         if op == "sacalc":
-            right, ins, bases = f[2] == "R", parse_scale(f[3]), parse_vals(f[4])
+            right, ins, bases = f[2] == "R", parse_scale(f[3]), split_bases(f[4])[1]
         else:
-            right, ins, bases = False, parse_scale(f[2]), parse_vals(f[3])
+            right, ins, bases = False, parse_scale(f[2]), split_bases(f[3])[1]
         brs = spec_build(ins)
         if body == "ERR":
             return ("raises", f"{op} raised on " + case.line[:200])
@@ -338,6 +417,7 @@ def cases_for_scale(rng: random.Random, ins, full=True):
             out.append(_mk(opn, fr(e), fr(fac), "-", s, fmt_vals(fin), tags=("factor",)))
         if fout:
             out.append(_mk(opn, fr(e), fr(fac), "-", s, fmt_vals(fout), claimed=False, tags=("factor", "below-first")))
+    out += variant_cases(rng, s, brs)
     # rounding, stream A (calc exact, DESIGN section 4): decimals 0 with any dyadic factor (scaled
     # thresholds off the rounding lattice, bases on the 1/8 lattice); decimals 1, 2 with integer
     # scaled thresholds and bases in 1/2 Z resp. 1/4 Z
@@ -354,6 +434,62 @@ def cases_for_scale(rng: random.Random, ins, full=True):
     d = rng.choice([0, 1, 2])
     rf = F(rng.choice(OFF_LATTICE_FACTORS), 8)
     out += _round_lines(("mridx", "mrrate"), rf, d, s, ths, round_bases(rng, brs, rf, d, F(1, 8)))
+    return out
+
+
+def variant_cases(rng, s, brs):
+    """argument kinds beyond a float vector with a scalar factor: integer arrays, an array of
+    factors (one per base), bracket indices given directly, `right=True` where it is ignored"""
+    out = []
+    ths = [t for t, _ in brs]
+    one = fr(eps_eff(F(1)))
+    # integer arrays
+    ib = sorted({t + dd for t in ths for dd in (-1, 0, 1)} | {F(0), ths[0] - 100, ths[-1] + 1000})
+    itxt = "i:" + fmt_vals(ib)
+    iin, _ = _split_index_bases(ths, ib)
+    itin = "i:" + fmt_vals(iin)
+    menu = [("mrcalc", (0, 1, "-", s, itxt)), ("macalc", (s, itxt)), ("sacalc", ("L", s, itxt)), ("sacalc", ("R", s, itxt))]
+    if iin:
+        menu += [("mridx", (one, 1, "-", s, itin)), ("mrrate", (one, 1, "-", s, itin)), ("thr", (one, s, itin)),
+                 ("ratefb", (one, s, itin)), ("mrrate", (one, 1, 0, s, itin)), ("mrcalc", (one, 1, 0, s, itxt))]
+    la_in = [b for b in ib if len(brs) >= 2 and ths[0] <= b < ths[-1]]
+    if la_in:
+        menu.append(("lacalc", (s, "i:" + fmt_vals(la_in))))
+    for opn, fields in rng.sample(menu, 3):
+        out.append(_mk(opn, *fields, tags=("int-array",)))
+    # an array of factors: base j is placed next to a threshold scaled by its own factor
+    d = rng.choice([None, None, 0, 0, 1, 2])
+    facs, vb = [], []
+    for _ in range(rng.randint(3, 10)):
+        fj = F(rng.choice(OFF_LATTICE_FACTORS + [8, 16]), 8)
+        x = fj * rng.choice(ths)
+        k = (x * 8).numerator // (x * 8).denominator
+        facs.append(fj)
+        vb.append(F(k + rng.choice([-8, -2, -1, 0, 0, 1, 2, 8, 400]), 8))
+    eps = [eps_eff(x) for x in facs]
+    dd = "-" if d is None else d
+    if d in (None, 0):
+        out.append(_mk("mrcalcv", fmt_vals([F(0)] * len(facs) if d is None else eps), fmt_vals(facs), dd, s, fmt_vals(vb), tags=("factor-array",)))
+    keep = []
+    for j, (fj, b) in enumerate(zip(facs, vb)):
+        lo, hi = _rounded([fj * ths[0]], d)
+        if b > hi[0] or (b == hi[0] and lo[0] == hi[0] and (d is not None or hi[0] <= 0)):
+            keep.append(j)
+    if keep:
+        sel = lambda l: fmt_vals([l[j] for j in keep])
+        out.append(_mk("mridxv", sel(eps), sel(facs), dd, s, sel(vb), tags=("factor-array",)))
+        out.append(_mk("mrratev", sel(eps), sel(facs), dd, s, sel(vb), tags=("factor-array",)))
+    # rate_from_bracket_indice on indices given directly
+    n = len(brs)
+    out.append(_mk("ratefi", s, ",".join(str(rng.randrange(n)) for _ in range(rng.randint(1, 6))), tags=("valid",)))
+    if rng.random() < 0.3:
+        bad = rng.choice(["-", str(n), f"0,{n + 2}", "-1", f"{-n}", f"{-n - 1}", f"{n - 1},-1"])
+        out.append(_mk("ratefi", s, bad, claimed=False, tags=("out-of-range",)))
+    # `right=True` is accepted and ignored by the marginal-amount and linear-average scales
+    if rng.random() < 0.25:
+        bases = bases_for(rng, brs, extra=2)
+        out.append(_mk("macalcR", s, fmt_vals(bases), claimed=False, tags=("right-ignored",)))
+        out.append(_mk("lacalcR", s, fmt_vals(bases), claimed=False, tags=("right-ignored",)))
     return out
 
 
@@ -434,7 +570,7 @@ def degenerate_cases():
 
 
 def generate(rng: random.Random, tier: str):
-    n_scales = 8000 if tier == "quick" else 150000
+    n_scales = 7000 if tier == "quick" else 130000
     n_perm = 120 if tier == "quick" else 3000
     out = degenerate_cases()
     for i in range(n_scales):
@@ -489,6 +625,7 @@ def corpus():
                 "100:1/8,0:1/4", "-50:1/16,0:0,50:1/8,50:1/8", "0:1,0:-1", "1024:1,-1024:1/16"]:
         out += cases_for_scale(rng, parse_scale(ins))
     out += perm_cases(parse_scale("0:1/16,5:1/8,5:1/4,-3:1/2"))
+    out += degenerate_cases()
     return out
 
 
@@ -518,7 +655,9 @@ PROP = Prop(
           "(scaled) threshold, threshold +- one lattice step, below the first, above the last, 0, negatives, a few random "
           "lattice points. ops: build, mrcalc / mridx / mrrate (plain, with factor k/8, with round decimals 0/1/2: factors "
           "k/8 whose scaled thresholds are off the rounding lattice, bases on the 1/8 lattice at t*f, at both rounding candidates "
-          "of t*f and +-1/8, +-1/4 around them; marginal_rates is also compared with rates[bracket_indices] for the same arguments), thr, "
+          "of t*f and +-1/8, +-1/4 around them; marginal_rates is also compared with rates[bracket_indices] for the same arguments; "
+          "an array of factors, one per base: mrcalcv / mridxv / mrratev), integer arrays (int32 / int64) for every op, optional arguments "
+          "spelled positionally on half of the lines and by keyword on the other half, rate_from_bracket_indice on given indices, thr, "
           "ratefb, macalc, sacalc L/R, lacalc; every insertion order of scales with <= 5 brackets. Each calc is evaluated "
           "on the vector and on every base alone. A case is non-trivial when the scale has at least two distinct thresholds."),
     assumptions=[
